@@ -24,7 +24,8 @@ type RaceReport struct {
 	Accesses []string      `json:"accesses"` // "Write at ... by goroutine 12", "Previous read at ..."
 	Tops     []raceFrame   `json:"top_frames"`
 	Stacks   [][]raceFrame `json:"stacks"`
-	Field    string        `json:"field,omitempty"` // protected field class if deciding
+	SrcLines []string      `json:"source_lines,omitempty"` // source text of the attributed frames (kept for replay)
+	Field    string        `json:"field,omitempty"`        // protected field class if deciding
 	Deciding bool          `json:"deciding"`
 	Sig      string        `json:"sig"`
 }
@@ -48,7 +49,7 @@ func parseRaceLogs(dir string) []RaceReport {
 		inAccess := false
 		var pendingFunc string
 		flush := func() {
-			if cur != nil && len(cur.Tops) > 0 {
+			if cur != nil && len(cur.Stacks) > 0 {
 				out = append(out, *cur)
 			}
 			cur = nil
@@ -77,10 +78,7 @@ func parseRaceLogs(dir string) []RaceReport {
 					n, _ := strconv.Atoi(m[2])
 					fr := raceFrame{Func: pendingFunc, File: m[1], Line: n}
 					k := len(cur.Stacks) - 1
-					if len(cur.Stacks[k]) == 0 {
-						cur.Tops = append(cur.Tops, fr)
-					}
-					if len(cur.Stacks[k]) < 8 {
+					if len(cur.Stacks[k]) < 48 {
 						cur.Stacks[k] = append(cur.Stacks[k], fr)
 					}
 					pendingFunc = ""
@@ -92,10 +90,15 @@ func parseRaceLogs(dir string) []RaceReport {
 		flush()
 		fh.Close()
 	}
+	var kept []RaceReport
 	for i := range out {
+		if len(out[i].Stacks) == 0 || len(out[i].Stacks[0]) == 0 {
+			continue
+		}
 		classifyRace(&out[i])
+		kept = append(kept, out[i])
 	}
-	return out
+	return kept
 }
 
 func protectedFile(f string) bool {
@@ -119,7 +122,48 @@ func sourceLine(file string, line int) string {
 	return ""
 }
 
+// projectFrame reports whether a frame belongs to the code under test or the harness (not the Go
+// runtime / standard library): the access is attributed to the innermost such frame, so that e.g. gob
+// encoding &res.value inside GetState is attributed to GetState.
+func projectFrame(f raceFrame) bool {
+	return strings.HasPrefix(f.Func, "github.com/DistCompiler/pgo/") || strings.HasPrefix(f.Func, "main.") || strings.HasPrefix(f.Func, "verifh/")
+}
+
 func classifyRace(r *RaceReport) {
+	r.Tops = nil
+	for _, st := range r.Stacks {
+		if len(st) == 0 {
+			continue
+		}
+		top := st[0]
+		found := false
+		// innermost frame inside the code the lock protects (e.g. GetState handing &res.value to gob) ...
+		for _, f := range st {
+			if protectedFile(f.File) {
+				top, found = f, true
+				break
+			}
+		}
+		// ... else the innermost frame of the project
+		for _, f := range st {
+			if !found && projectFrame(f) {
+				top, found = f, true
+			}
+		}
+		r.Tops = append(r.Tops, top)
+	}
+	for i, st := range r.Stacks { // keep what a reader needs: down to the attributed frame
+		cut := len(st)
+		for k, f := range st {
+			if i < len(r.Tops) && f == r.Tops[i] {
+				cut = k + 3
+				break
+			}
+		}
+		if cut < len(st) {
+			r.Stacks[i] = st[:cut]
+		}
+	}
 	var parts []string
 	for _, t := range r.Tops {
 		parts = append(parts, fmt.Sprintf("%s@%s:%d", t.Func, filepath.Base(t.File), t.Line))
@@ -129,11 +173,17 @@ func classifyRace(r *RaceReport) {
 		return
 	}
 	fields := map[string]bool{}
-	for _, t := range r.Tops[:2] {
+	stored := r.SrcLines
+	r.SrcLines = nil
+	for i, t := range r.Tops[:2] {
 		if !protectedFile(t.File) {
 			return
 		}
 		src := sourceLine(t.File, t.Line)
+		if src == "" && i < len(stored) {
+			src = stored[i]
+		}
+		r.SrcLines = append(r.SrcLines, strings.TrimSpace(src))
 		m := fieldRe.FindAllString(src, -1)
 		if src != "" && len(m) == 0 {
 			return // protected file, but the line touches none of the protected fields (e.g. the vector clock)
